@@ -241,6 +241,11 @@ func c14Prop(sc Scenario, cases *[]*c14case) func(t *rapid.T) {
 				"step": func(at *rapid.T) { rapid.Bool().Draw(at, "b") },
 				"":     func(at *rapid.T) { _ = at.Failed() },
 			})
+			if failSome && mix(u, 0xfa7)%2 == 0 {
+				// the property's own goroutine stops the test case fatally while the workers are still signalling
+				cs.lateFailing.Add(1)
+				t.Fatalf("a worker failed")
+			}
 		}
 		if sc.Family == "late-cleanup" {
 			// goroutines that outlive the body: they wake when the context is cancelled, register cleanups while
